@@ -335,6 +335,13 @@ def recursion_budget(repo, world, roots, import_roots):
             except AnalysisError as e:
                 err = e
             cparams = [a.arg for a in cf.node.args.posonlyargs + cf.node.args.args]
+            if isinstance(arg, ast.Name) and arg.id not in cparams and hops < 4:
+                # a local bound exactly once in the caller (`r = curve_order`): its defining expression
+                defs = [x for x in _own_nodes(cf.node) if isinstance(x, ast.Assign) and len(x.targets) == 1
+                        and isinstance(x.targets[0], ast.Name) and x.targets[0].id == arg.id]
+                stores = [x for x in _own_nodes(cf.node) if isinstance(x, ast.Name) and x.id == arg.id and isinstance(x.ctx, ast.Store)]
+                if len(defs) == 1 and len(stores) == 1:
+                    return bound(caller, defs[0].value, n, hops + 1)
             if isinstance(arg, ast.Name) and arg.id in cparams and hops < 4 and \
                     not any(isinstance(x, ast.Name) and x.id == arg.id and isinstance(x.ctx, ast.Store) for x in _own_nodes(cf.node)):
                 j = cparams.index(arg.id)
